@@ -6,8 +6,33 @@ props = [json.loads(l) for l in open(os.path.join(HERE, 'properties.jsonl'))]
 ids = [p['id'] for p in props]
 
 # id -> (technique, level text, level note, design ref)
+T_LOCK = "static lock-set dataflow over go/cfg + lock-required call-graph propagation + escape analysis of guarded references"
+T_COND = "static condition-variable protocol analysis (notify-after-write on all CFG paths, lock-set at notify sites, wait-loop shape)"
+NOTE = "Trusted: go/types, go/cfg, x/tools go/packages v0.29.0, the hand-confirmed tables in checker/tables.go (guarded fields, exceptions with reasons), sync/atomic/context/channel semantics. Lock identity is (owner variable, owner type, field); aliasing two variables to one object is not modelled. The check decides the structural clauses listed in the evidence explanation, not the behaviour as a whole; clauses out of static reach are listed there as NOT decided."
+def lvl(t): return "Necessary structural conditions of the property, decided for every path of the current source (hence for every schedule/input that can exercise those paths): " + t + " A behavioural property quantified over schedules/values cannot be decided as a whole by static analysis; this level claims exactly these clauses and fails loudly (undecided = failure) when the code leaves the shapes the rules understand."
 CLAIMED = {
+ "C01": ("static typestate of the pipe-close protocol + once-guarded lazy start + goroutine accounting (AST/CFG rules P1 P2 G2 X5 PS1 X1)", lvl("the reader/worker start is Once-guarded, each pipe is closed only by its single sender or after the wait group of all senders, workers are counted before they start, ChanSend.Write is the only (non-dropping) hand-off, skip rows continue."), NOTE, "DESIGN.md §5 C01"),
+ "C02": ("decision-table extraction by abstract interpretation of the iterator loops (T1, X1)", lvl("the complete decision table of Iterator.ReadOne and the skip/nil rows of all producer/processor loops, close-on-error and closed-first."), NOTE, "DESIGN.md §5 C02"),
+ "C03": ("predicate abstraction: full decision table of CanContinueOnError over all atom assignments, plus wiring rules (N2 F3 F4 F6 F7 F8 N4)", lvl("the full (recorded?, continue?, abort?) table of the error classification for every error kind × option, that every option is consumed, panics are recover-wrapped and marked, the abort hook is wired to a live cancel."), NOTE, "DESIGN.md §5 C03"),
+ "C04": ("static blocking-discipline analysis (every channel op has an exit), context provenance, close/upstream-close typestate (B1 B2 P1b P2 P3 T1)", lvl("no goroutine can block on a channel without a ctx/default exit, background work derives from the iterator's context, every pipe is closed, upstream is closed, Close is once-guarded."), NOTE, "DESIGN.md §5 C04"),
+ "C05": (T_LOCK + "; single-critical-section rule; coupled-update and sibling-agreement rules (L1 L2 L4 D3b X2 X6 D5)", lvl("every access under q.mu, one critical section per operation, link/tracker coupling, tracker implementations agree."), NOTE, "DESIGN.md §5 C05"),
+ "C06": (T_LOCK + "; link-balance and role rules (L1-L4 D3 D3b D7 X2 X6)", lvl("every access under dq.mtx, iterator closures only through WithLock, balanced link stores with tracker updates after the closed test, force push evicts from the opposite end only when full."), NOTE, "DESIGN.md §5 C06"),
+ "C07": (T_COND + " (W1 W2 W2b W3 W4 W6 W7) on top of the lock-set engine", lvl("a lost wake-up is the absence of a notification on some path: wait loops, closed/ctx re-checks, watchers, notify-after-write with Broadcast, notifications under the lock, no unconditional park."), NOTE, "DESIGN.md §5 C07"),
+ "C08": ("who-may-write and loop-shape rules over the broker (K1 K2), goroutine accounting (G1), blocking discipline (B1)", lvl("single writer of the subscriber set, a worker never overlaps two messages and forwards the received value, parallel sends are awaited, sends can give up."), NOTE, "DESIGN.md §5 C08"),
+ "C09": ("blocking-discipline + lock-held-across-wait analysis, goroutine accounting, condvar protocol on the distributor (B1 B2 G1 K3 W*)", lvl("every broker channel op can exit on its context, Wait holds no mutex Stop needs, goroutines are counted and awaited, the Deque distributor cannot park on a non-empty buffer."), NOTE, "DESIGN.md §5 C09"),
+ "C10": ("event linearisation (statements + LIFO defers) and typestate/order rules over Service.Start (S1 S2 S4-S9 G1)", lvl("single-shot start inside sync.Once, phase order in the three goroutines, recover on every callback's stack, flag monotonicity and publication, exactly one nil from Start."), NOTE, "DESIGN.md §5 C10"),
+ "C11": ("goroutine accounting on CFG paths + error-discipline (unused result) rules for package srv (G1 O1 O2 O3 B2)", lvl("every started service/job is counted and awaited, no error of Start/Wait/Run/ParallelForEach is dropped, Cleanup continues on error and panic, the orchestrator drains before waiting."), NOTE, "DESIGN.md §5 C11"),
+ "C12": (T_LOCK + " for erc.Collector; sibling agreement of the flattening switches (L1 L3d X3 X4 F3)", lvl("the collector's stack is only touched under its mutex and does not escape, nil is never stored, one unwind preference, every ParsePanic branch is marked."), NOTE, "DESIGN.md §5 C12"),
+ "C13": (T_LOCK + " (L1 L2 L3 L3d L3b L5 U3)", lvl("lock discipline of every guarded field of the listed types on every path, lock-required helpers only reached under the lock, closures/method values only through WithLock, no guarded map ranged from another goroutine, write-once publication."), NOTE, "DESIGN.md §5 C13"),
+ "C14": (T_LOCK + " + " + T_COND + " for fun.WaitGroup; dominance check V1; G2", lvl("counter/cond under mu, broadcast on reaching zero under the waiter's own wake condition, cancel watcher under the lock, check-before-mutate, Launch accounts before start."), NOTE, "DESIGN.md §5 C14"),
+ "C15": ("no-effect (discarded combinator) analysis, once/hook-order rules by event linearisation, lock-set of the limit/ttl closures (N1 U2 U3 U6 U7 L1)", lvl("no wrapper is discarded, once-wrappers run only inside sync.Once.Do, hooks run in the documented order, waiters complete after the background execution, exclusion wrappers call under their mutex."), NOTE, "DESIGN.md §5 C15"),
+ "C16": ("node-copy (copylocks-style) rule, ownership typestate, link-balance rule, no-op store rule (D1 D2 D2b D3 N3)", lvl("nodes/headers are never copied, only detached elements are attached, forward/backward links change in pairs with the length, no relink is a no-op."), NOTE, "DESIGN.md §5 C16"),
+ "C17": ("node-copy and ownership typestate rules on the sort paths (D1 D2 D3)", lvl("only the clause 'the list remains fully usable after sorting': the sorted elements are moved back rather than the header copied, re-insertion goes through the guarded primitives."), NOTE, "DESIGN.md §5 C17"),
+ "C18": ("coupled-update rule for index/order list + " + T_LOCK + " with per-variable lock identity (D6 L1 L2 L3d L3b N1 D1)", lvl("index and order list change together, both sets' state only under their own mutex, iterators only through WithLock and never ranging the map from another goroutine."), NOTE, "DESIGN.md §5 C18"),
+ "C19": ("coupled-write and writer/reader field-agreement rules (H1 H4)", lvl("only: every writer of counts maintains totalCount, Export/Import agree on every Snapshot field. The numeric core of the property is not claimed."), NOTE, "DESIGN.md §5 C19"),
+ "C20": (T_LOCK + " on the iterator closures, single critical section, nil discipline of tail links, " + T_COND, lvl("iterator closures inspect links and closed only under the lock, decide and park in one critical section, never follow a nil tail link, and are woken by add/close/cancel."), NOTE, "DESIGN.md §5 C20"),
 }
+
 NA_REASON = {}
 DEFAULT_NA = "static rules for this property are not built yet in this round (see DESIGN.md §5 for the planned structural clauses); no other technique is substituted"
 
